@@ -113,10 +113,13 @@ def gen_fixture(s, indent="", in_class=False, name=None, deps=None):
     if multiline:
         s.features.add("multiline_sig" + (":trailing_comma" if rng.random() < 0.5 else ""))
         tc = "," if "multiline_sig:trailing_comma" in s.features and params[-1] not in ("/",) else ""
+        ci = "" if (indent == "" and rng.random() < 0.25) else "    "
+        if ci == "":
+            s.features.add("continuation_at_column_0")
         s.emit(f"{indent}{d} {fn}(")
         for i, p in enumerate(params):
             last = i == len(params) - 1
-            s.emit(f"{indent}    {p}{(',' if not last else tc)}" + s.noise_comment())
+            s.emit(f"{indent}{ci}{p}{(',' if not last else tc)}" + s.noise_comment())
         s.emit(f"{indent}){ret}:")
     else:
         s.emit(f"{indent}{d} {fn}({', '.join(params)}){ret}:" + s.noise_comment())
@@ -199,8 +202,9 @@ def gen_test(s, indent="", in_class=False, plain_strings=True):
         form = rng.choice(["pytest.mark.usefixtures", "mark.usefixtures"])
         if rng.random() < 0.3 and len(ns) > 1:
             s.emit(f"{indent}@{form}(")
+            ci = "" if (indent == "" and rng.random() < 0.25) else "    "
             for n in ns:
-                s.emit(f"{indent}    {str_lit(s, n, plain_strings)}," + s.noise_comment())
+                s.emit(f"{indent}{ci}{str_lit(s, n, plain_strings)}," + s.noise_comment())
             s.emit(f"{indent})")
             s.features.add("usefixtures:multiline")
         else:
@@ -243,8 +247,9 @@ def gen_test(s, indent="", in_class=False, plain_strings=True):
     ret = " -> None" if rng.random() < 0.3 else ""
     if rng.random() < 0.25 and len(params) >= 1:
         s.emit(f"{indent}{d} test_t{k}(")
+        ci = "" if (indent == "" and rng.random() < 0.25) else "    "
         for i, p in enumerate(params):
-            s.emit(f"{indent}    {p}," + s.noise_comment())
+            s.emit(f"{indent}{ci}{p}," + s.noise_comment())
         s.emit(f"{indent}){ret}:")
         s.features.add("test:multiline_sig")
     else:
